@@ -121,9 +121,34 @@ def theorem_names(pid):
     return re.findall(r"^theorem\s+([A-Za-z0-9_'.]+)", src, flags=re.M)
 
 
+def regenerate_consts():
+    """the translator half of the tie (tools/extract_consts.py): DdsModel/SrcConsts.lean is regenerated from the
+    working tree on every run, so the theorems that mention tuning constants are re-checked for the current values.
+    Returns a failure string or None. In ALT mode (mutation runs) a tree whose constants differ from /verif's
+    gets a private copy of the Lean project under DDSV_OUT, so concurrent runs do not disturb each other."""
+    global LEAN, DRIVER
+    repo = ALT_REPO or "/repo"
+    rc, out, err = sh([os.path.join(ROOT, "tools", "extract_consts.py"), repo])
+    if rc != 0:
+        return "translator tools/extract_consts.py: " + err.strip()[-300:]
+    path = os.path.join(LEAN, "DdsModel", "SrcConsts.lean")
+    cur = open(path).read() if os.path.exists(path) else ""
+    if out != cur:
+        if ALT_REPO:
+            dst = os.path.join(OUT, "lean", "DdsModel")
+            os.makedirs(dst, exist_ok=True)
+            subprocess.run(["rsync", "-a", "--delete", LEAN + "/", dst + "/"], check=True)
+            LEAN = dst
+            DRIVER = os.path.join(LEAN, ".lake", "build", "bin", "driver")
+            path = os.path.join(LEAN, "DdsModel", "SrcConsts.lean")
+        open(path, "w").write(out)
+    return None
+
+
 def proofs(pid, tier):
     """returns dict(obligations, discharged, failures[], axioms{}, checker_cmd)"""
     res = {"obligations": 0, "discharged": 0, "failures": [], "axioms": {}, "theorems": []}
+    tr = regenerate_consts()
     mods = [f"DdsModel.Theorems.{pid}", "driver"]
     cmd = ["lake", "build"] + mods
     res["checker_cmd"] = "cd lean/DdsModel && " + " ".join(cmd) + \
@@ -134,6 +159,8 @@ def proofs(pid, tier):
     names = theorem_names(pid)
     res["obligations"] = len(names)
     res["theorems"] = names
+    if tr:
+        res["failures"].append(tr)
     if rc != 0:
         # find which theorems fail: lake prints `error: file:line:col: ...`
         res["failures"].append("lake build failed: " + (out + err)[-3000:])
